@@ -1,1 +1,3 @@
 //! Reference models (independent of the code under test)
+pub mod palette;
+pub mod re;
